@@ -373,7 +373,10 @@ func (tb *TB) build(v ssa.Value) *Term {
 					continue
 				}
 				a := tb.Term(e)
-				k := a.String()
+				k := fmt.Sprintf("%p", e)
+				if _, isConst := e.(*ssa.Const); isConst {
+					k = a.String()
+				}
 				if !seenStr[k] {
 					seenStr[k] = true
 					t.Args = append(t.Args, a)
